@@ -58,6 +58,7 @@ func c11(c *core.Ctx) string {
 	c.Rule("R-C11-2", "immutable after publish: fields of muxInstance/muxRule/MuxPath/route are assigned only on objects freshly created in the same function and before mux.inst.Store publishes them; every return of a publishing function has stored a fresh instance; object entities are stored into the registry maps (Namespace.pipelines/trafficGates, Supervisor.business/systemControllers) only after Init/InheritWithRecovery returned, never rebuilt afterwards, and every built entity is published; Pipeline fields and FlowNode.filter are assigned only in Init/Inherit and their private helpers")
 	c.Rule("R-C11-3", "predecessor not mutated: for every implementation of filters.Filter.Inherit and of supervisor Controller/TrafficObject.Inherit, no store through a value derived from the previousGeneration parameter (excluding its explicit Close) hits a field that the kind's request path (Handle call tree) reads")
 	c.Rule("R-C11-4", "unchanged spec is a no-op: in TrafficController.ApplyPipeline/ApplyTrafficGate InheritWithRecovery is reachable only with previous.Spec().Equals(new.Spec()) = false and the Equals = true path builds and stores nothing and returns the running entity; in ObjectRegistry.applyConfig the new entity is recorded (entities/created/updated) only if no entity of that name exists or Equals = false")
+	c.Rule("R-C11-6", "a new router generation gets a fresh route cache: muxInstance.cache is only ever assigned a cache created in the same function (a cache carried over keeps routes whose filter chains and options belong to the old generation, so new requests would not see the new generation)")
 	c.Rule("R-C11-5", "per-name isolation: Namespace.pipelines/trafficGates and Supervisor.businessControllers/systemControllers are used only as receivers of sync.Map methods (never assigned or copied), and every Store uses as key the stored entity's own Spec().Name() (or the key of the event map the entity came from)")
 	c.NotDecided = []string{
 		"absence of data races in general (only the publication discipline of the generation pointers/maps is checked)",
@@ -75,5 +76,6 @@ func c11(c *core.Ctx) string {
 	c11Inherit(c)
 	c11NoOp(c)
 	c11Isolation(c)
+	muxCacheFresh(c, "R-C11-6")
 	return "Hot update is decided as structural necessary conditions: (1) a request loads the router generation once and nothing on its path can load it again (path-sensitive count over ServeHTTP, call-tree and type-reachability audit); (2) generations are immutable after publication and are published only when completely built (field-store audit by role + event ordering over all paths of reload and of the TrafficController/Supervisor create/update/apply functions); (3) no Inherit implementation (39 kinds, SSA taint from the predecessor parameter) writes predecessor state its Handle path reads; (4) the Equals guard dominates every rebuild (path-sensitive); (5) registry maps are per-name. Not decided: general data races, behaviour of closed resources under in-flight requests, aliasing through interfaces."
 }
